@@ -114,6 +114,8 @@ func c09Datasets(tier string) []c09Dataset {
 		// string-kind fields whose text looks like another kind (given as quoted JSON strings)
 		{"SET", "k1", "g", "FIELD", "qnum", `"123"`, "FIELD", "qtrue", `"true"`, "FIELD", "qobj", `"{\"a\":1}"`, "FIELD", "qpad", `" padded "`, "FIELD", "qnull", `"null"`, "FIELD", "qempty", `""`, "POINT", "1", "2"},
 		w("FSET k1 a later 42"),
+		// a string field that is not valid UTF-8
+		{"SET", "k1", "u", "FIELD", "tag", "ab\xff\xfecd", "FIELD", "latin", "caf\xe9", "POINT", "1", "2"},
 		// field names with surrounding blanks (a name is trimmed when it is stored)
 		{"SET", "k1", "h", "FIELD", " padded", "1", "FIELD", " z", "5", "FIELD", "lat ", "6", "POINT", "1", "2"},
 		{"FSET", "k1", "a", " lon", "7"},
